@@ -150,19 +150,22 @@ impl Prop for C01 {
     // a literal in half of the cases (chosen by a hash of the case id) - provided the literal alone evaluates to exactly
     // the operand (how literals are read is C13's business)
     let h = case.id.bytes().fold(0xcbf29ce484222325u64, |h, b| (h ^ b as u64).wrapping_mul(0x100000001b3));
-    let mut text = op_text(&op);
     let mut form = String::new();
-    for (bit, name, v) in [(0u32, "a", Some(&lhs)), (1, "b", rhs.as_ref())] {
+    let mut spelled: Vec<String> = vec!["a".to_string(), "b".to_string()];
+    for (bit, v) in [(0usize, Some(&lhs)), (1, rhs.as_ref())] {
       let Some(v) = v else { continue };
       let mut used = false;
       if (h >> (7 + bit)) & 1 == 1 {
         if let Some(l) = lit(v) {
           let l = if l.starts_with('-') { format!("({})", l) } else { l };
-          if let Ev::Ok(pv) = s.eval(&l) { if &pv == v { text = text.replacen(name, &l, 1); used = true; } }
+          if let Ev::Ok(pv) = s.eval(&l) { if &pv == v { spelled[bit] = l; used = true; } }
         }
       }
       form.push(if used { 'l' } else { 'v' });
     }
+    // (the formula is assembled from the two spellings; substituting names inside a text that already holds a string
+    // literal would rewrite the literal)
+    let text = match op.as_str() { "neg" => format!("-{}", spelled[0]), "not" => format!("!{}", spelled[0]), o => format!("{} {} {}", spelled[0], o, spelled[1]) };
     let res = s.eval(&text);
     let arm = s.last_arm();
     let mut tags = vec![format!("form:{}", form)];
